@@ -96,6 +96,7 @@ type scenario struct {
 	StallPeer  bool  `json:"stallPeer"` // server app stops reading for a while so the client's queue fills
 	Yield      int   `json:"yield"`     // 0..3: how aggressively goroutines yield
 	ReaderSlow int   `json:"readerSlow"`
+	Storm      bool  `json:"storm"` // a goroutine keeps requesting key exchanges on the client while the stalled exchange completes
 }
 
 type result struct {
@@ -257,6 +258,24 @@ func run(sc scenario) (res result) {
 			}
 		}(x, h, rng.Int63())
 	}
+	stormStop := make(chan struct{})
+	if sc.Storm {
+		wgK.Add(1)
+		go func() {
+			defer wgK.Done()
+			for {
+				select {
+				case <-stormStop:
+					return
+				default:
+				}
+				rec.add(event{Ev: "rekey", X: "c"})
+				hc.RequestKeyExchange()
+				time.Sleep(20 * time.Microsecond)
+			}
+		}()
+		go func() { wgW.Wait(); close(stormStop) }()
+	}
 	if sc.StallPeer {
 		// let the client's queue fill (and writers block) while the server application is not reading
 		go func() { time.Sleep(30 * time.Millisecond); close(stallGate) }()
@@ -332,6 +351,13 @@ func TestRecord(t *testing.T) {
 			sc.NPkts = 40 + rng.Intn(30)
 			sc.RekeysC = 1 + rng.Intn(2)
 			sc.MaxLen = 10
+			if k%10 == 9 { // ... and a second key exchange starts while the blocked writers are being woken
+				sc.Storm = true
+				sc.WritersC = 6 + rng.Intn(3)
+				sc.Threshold = 256
+				sc.MaxLen = 300
+				sc.Yield = 0
+			}
 		}
 		res := run(sc)
 		key := fmt.Sprintf("%+v", sc)
